@@ -20,7 +20,7 @@ def generate(rng, tier, index):
     n = rng.randrange(1, 7)
     shapes = []
     for _ in range(n):
-        shp = [rng.randrange(1, 6) for _ in range(D)]
+        shp = [rng.choice([1, 2, 3, 4, 5, 5, 37]) for _ in range(D)]
         shp[dim % D] = F
         shapes.append(shp)
     if rng.random() < 0.25:
